@@ -505,13 +505,21 @@ Proof.
   unfold ttr_leaf. destruct (get_access_policies o n); rewrite rw_get_set_same; discriminate.
 Qed.
 
-Lemma ttr_key o sup n skip m : rw_get (try_type_rewrite o sup n skip m) (t_id n, skip) <> None.
+Lemma full_key o sup n m : rw_get (full o sup n m) (t_id n, false) <> None.
 Proof.
   destruct n as [i u a mat ps kids]. simpl.
   match goal with |- context [if negb ?c then _ else _] => destruct c end; simpl.
   - rewrite rw_get_set_same. discriminate.
   - apply (ttr_leaf_key o (TNode i u a mat ps kids)).
 Qed.
+
+Lemma skipped_key o sup n m : rw_get (skipped o sup n m) (t_id n, true) <> None.
+Proof.
+  unfold skipped. destruct (get_access_policies o n); rewrite rw_get_set_same; discriminate.
+Qed.
+
+Lemma ttr_key o sup n skip m : rw_get (try_type_rewrite o sup n skip m) (t_id n, skip) <> None.
+Proof. unfold try_type_rewrite. destruct skip; [apply skipped_key|apply full_key]. Qed.
 
 Lemma should_ignore_nil n : should_ignore_rewrite [] n = false.
 Proof. reflexivity. Qed.
@@ -526,7 +534,7 @@ Proof.
   assert (E : (if sup_nonempty sup then should_ignore_rewrite sup n else false)
               = should_ignore_rewrite sup n).
   { unfold should_ignore_rewrite. destruct (sup_nonempty sup); reflexivity. }
-  rewrite E. rewrite Ho.
+  rewrite E. rewrite Ho. unfold absent.
   destruct (should_ignore_rewrite sup n) eqn:Es; simpl.
   - split; auto. discriminate.
   - destruct (rw_get m (t_id n, skip)) eqn:Eg; simpl; split; auto; intros _.
@@ -541,19 +549,24 @@ Lemma reg_nontrivial o n skip m :
   t_abstract n = false ->
   exists v, rw_get (fst (new_set o [] n skip false m)) (t_id n, skip) = Some v /\ v <> RwNone.
 Proof.
-  intros Ho Eg Hp Ha. unfold new_set. simpl. rewrite Eg, Ho. simpl.
-  destruct n as [i u a mat ps kids]. simpl in Ha. subst a.
-  unfold has_policies_in_force in Hp. simpl t_id in *. simpl t_kids in Hp.
-  simpl. rewrite any_own_existsb.
-  destruct (negb skip && existsb (has_own_policies o i) kids) eqn:Ec; simpl.
-  - rewrite rw_get_set_same. eexists. split; [reflexivity|].
-    match goal with |- context [(1 + ?c)%N] => generalize c end. intros c.
-    destruct (N.eqb (1 + c) 0) eqn:E0; [apply N.eqb_eq in E0; lia|].
-    destruct (N.eqb (1 + c) 1); discriminate.
-  - unfold ttr_leaf.
-    destruct (get_access_policies o (TNode i u false mat ps kids)) eqn:Ep.
-    + discriminate.
-    + rewrite rw_get_set_same. eexists. split; [reflexivity|discriminate].
+  intros Ho Eg Hp Ha. unfold new_set, absent. simpl. rewrite Eg, Ho. simpl.
+  unfold try_type_rewrite. destruct skip.
+  - (* skip_subtypes: own policies must be in force *)
+    unfold has_policies_in_force in Hp. unfold skipped.
+    destruct (get_access_policies o n) eqn:Ep; [discriminate|].
+    rewrite rw_get_set_same. eexists. split; [reflexivity|discriminate].
+  - destruct n as [i u a mat ps kids]. simpl in Ha. subst a.
+    unfold has_policies_in_force in Hp. simpl t_id in *. simpl t_kids in Hp.
+    simpl. rewrite any_own_existsb.
+    destruct (existsb (has_own_policies o i) kids) eqn:Ec; simpl.
+    + rewrite rw_get_set_same. eexists. split; [reflexivity|].
+      match goal with |- context [(1 + ?c)%N] => generalize c end. intros c.
+      destruct (N.eqb (1 + c) 0) eqn:E0; [apply N.eqb_eq in E0; lia|].
+      destruct (N.eqb (1 + c) 1); discriminate.
+    + unfold ttr_leaf.
+      destruct (get_access_policies o (TNode i u false mat ps kids)) eqn:Ep.
+      * discriminate.
+      * rewrite rw_get_set_same. eexists. split; [reflexivity|discriminate].
 Qed.
 
 (* first registration of a type whose children carry no policies of their own: the
@@ -565,11 +578,11 @@ Lemma reg_leaf o n skip m :
   rw_get (fst (new_set o [] n skip false m)) (t_id n, skip)
   = Some (match get_access_policies o n with [] => RwNone | _ :: _ => RwFilter end).
 Proof.
-  intros Ho Eg Hk. unfold new_set. simpl. rewrite Eg, Ho. simpl.
-  destruct n as [i u a mat ps kids]. simpl t_id in *. simpl t_kids in *.
-  simpl. rewrite any_own_existsb.
-  assert (Ec : negb skip && existsb (has_own_policies o i) kids = false).
-  { destruct Hk as [->|->]; [reflexivity|apply andb_false_r]. }
-  rewrite Ec. simpl. unfold ttr_leaf.
-  destruct (get_access_policies o (TNode i u a mat ps kids)); now rewrite rw_get_set_same.
+  intros Ho Eg Hk. unfold new_set, absent. simpl. rewrite Eg, Ho. simpl.
+  unfold try_type_rewrite. destruct skip.
+  - unfold skipped. destruct (get_access_policies o n); now rewrite rw_get_set_same.
+  - destruct Hk as [Hk|Hk]; [discriminate|].
+    destruct n as [i u a mat ps kids]. simpl t_id in *. simpl t_kids in *.
+    simpl. rewrite any_own_existsb. rewrite Hk. simpl. unfold ttr_leaf.
+    destruct (get_access_policies o (TNode i u a mat ps kids)); now rewrite rw_get_set_same.
 Qed.
